@@ -23,7 +23,10 @@ Inductive binop :=
 
 Inductive builtin := BSize | BRange | BElement | BIsNull | BNot | BToString | BGreatest | BLeast | BAbs.
 
-Inductive aggop := ASum | AMin | AMax | ACount | AList | ASet | AArgMin | AArgMax | AAnyValue.
+Inductive aggop := ASum | AMin | AMax | ACount | AList | ASet | AArgMin | AArgMax | AAnyValue
+  (* what the SQLite templates compute instead of the documented meaning (used only to classify a
+     disagreement): null inputs kept / empty input gives [] or 0 instead of null *)
+  | AListQ | ASetQ | ACountQ.
 
 Inductive expr :=
 | ENull
